@@ -267,14 +267,14 @@ func TestVerifC32(t *testing.T) {
 				continue
 			}
 			name := vfC32Name(id, false)
-			ns := 1
-			if r.Chance(25) {
-				ns = 2
-			}
+			ns := []int{1, 1, 1, 1, 2, 2, 2, 3, 3, 4}[r.Intn(10)] // 60% multi-shard repositories
 			for k := 0; k < ns; k++ {
 				p := filepath.Join(dir, fmt.Sprintf("%s_v16.%05d.zoekt", name, k))
 				vfC32WriteSimple(t, p, id, name, dates[r.Intn(len(dates))])
 				setMtime(p)
+			}
+			if ns > 1 {
+				classes = append(classes, "multi-shard:index")
 			}
 			if r.Chance(15) { // renamed repository: same id, other name
 				nn := vfC32Name(id, true)
@@ -330,16 +330,24 @@ func TestVerifC32(t *testing.T) {
 				continue
 			}
 			name := vfC32Name(id, false)
-			ns := 1
-			if r.Chance(25) {
-				ns = 2
-			}
+			ns := []int{1, 1, 1, 1, 2, 2, 2, 3, 3, 4}[r.Intn(10)]
+			together := r.Chance(65) // the shards of one repository are usually trashed by one cleanup: same mtime
+			mt := time.Unix(vfC32Now+deltas[r.Intn(len(deltas))], 0)
 			for k := 0; k < ns; k++ {
 				p := filepath.Join(trashDir, fmt.Sprintf("%s_v16.%05d.zoekt", name, k))
 				vfC32WriteSimple(t, p, id, name, dates[r.Intn(len(dates))])
-				setMtime(p)
+				if together {
+					if err := os.Chtimes(p, mt, mt); err != nil {
+						t.Fatal(err)
+					}
+				} else {
+					setMtime(p)
+				}
 			}
 			classes = append(classes, "trash")
+			if ns > 1 {
+				classes = append(classes, "multi-shard:trash")
+			}
 		}
 		// ---- temp files and an unrelated file
 		ntmp := r.Intn(3)
@@ -374,7 +382,7 @@ func TestVerifC32(t *testing.T) {
 		before := vfC32Observe(t, dir)
 		// ---- rename failures (moveAll's fallback): pick shard files that cleanup is likely to move
 		var plan zzfs.Plan
-		if r.Chance(30) {
+		if r.Chance(40) {
 			// shards cleanup will probably move: trashed shards of assigned repositories that are not alive in the
 			// index (restore), simple shards of unassigned repositories (trashing); any other shard otherwise
 			var restore, trashing, other []string
@@ -396,7 +404,35 @@ func TestVerifC32(t *testing.T) {
 					other = append(other, f.base)
 				}
 			}
+			// moveAll handles the shards of one repository in file-name order: a failure on the 2nd or a later shard
+			// happens after earlier shards were moved (the fallback must clean those up at their destination)
+			groups := func(bases []string, fs []vfC32File) [][]string {
+				byID := map[uint32][]string{}
+				var ids []uint32
+				for _, b := range bases {
+					id := vfC32Find(fs, b).entries[0].id
+					if len(byID[id]) == 0 {
+						ids = append(ids, id)
+					}
+					byID[id] = append(byID[id], b)
+				}
+				var out [][]string
+				for _, id := range ids {
+					if g := byID[id]; len(g) >= 2 {
+						sort.Strings(g)
+						out = append(out, g)
+					}
+				}
+				return out
+			}
+			multiRestore, multiTrashing := groups(restore, before.trash), groups(trashing, before.index)
 			for k := 0; k < 1+r.Intn(2); k++ {
+				if mg := append(append([][]string{}, multiRestore...), multiTrashing...); len(mg) > 0 && r.Chance(65) {
+					g := mg[r.Intn(len(mg))]
+					b := g[1+r.Intn(len(g)-1)]
+					plan.Fail = append(plan.Fail, zzfs.Sel{Seq: -1, Kind: "Rename", Args: []string{"$/" + b}, Occ: -1})
+					continue
+				}
 				cands := other
 				if len(restore) > 0 && r.Chance(45) {
 					cands = restore
@@ -434,6 +470,20 @@ func TestVerifC32(t *testing.T) {
 		}
 		if len(failTrash) > 0 {
 			classes = append(classes, "rename-failure:trashing")
+		}
+		later := func(bases []string) bool { // a failing rename on a shard numbered >= 1: earlier shards were moved before
+			for _, b := range bases {
+				if !strings.Contains(b, ".00000.") {
+					return true
+				}
+			}
+			return false
+		}
+		if later(failIdx) {
+			classes = append(classes, "rename-failure:restore:2nd-or-later-shard")
+		}
+		if later(failTrash) {
+			classes = append(classes, "rename-failure:trashing:2nd-or-later-shard")
 		}
 		after1 := vfC32Observe(t, dir)
 		cleanup(dir, append([]uint32(nil), assigned...), now, sm)
@@ -571,6 +621,66 @@ func TestVerifC32(t *testing.T) {
 					}
 				}
 				vfOracleFail(key, fmt.Sprintf("assigned repository %d is only tombstoned in the index but was not revived", id), replay)
+			}
+		}
+		// all-or-nothing (also under injected rename failures): the simple shards of a repository are moved, restored
+		// or dropped TOGETHER — what is live in the index afterwards, and what sits in the trash afterwards, is for every
+		// repository either nothing or one complete shard set it had before (the indexed set or the trashed set), never
+		// a strict subset (a partially restored repository answers searches with part of its files; a partial copy in
+		// the trash is restored as such later)
+		{
+			simple := func(fs []vfC32File, id uint32) []string {
+				var out []string
+				for _, f := range fs {
+					if f.compound {
+						continue
+					}
+					for _, e := range f.entries {
+						if e.id == id {
+							out = append(out, f.base)
+							break
+						}
+					}
+				}
+				sort.Strings(out)
+				return out
+			}
+			idSet := map[uint32]bool{}
+			for _, d := range []vfC32Dir{before, after1} {
+				for _, fs := range [][]vfC32File{d.index, d.trash} {
+					for _, f := range fs {
+						for _, e := range f.entries {
+							idSet[e.id] = true
+						}
+					}
+				}
+			}
+			var allIDs []uint32
+			for id := range idSet {
+				allIDs = append(allIDs, id)
+			}
+			sort.Slice(allIDs, func(i, j int) bool { return allIDs[i] < allIDs[j] })
+			for _, id := range allIDs {
+				bi, bt := simple(before.index, id), simple(before.trash, id)
+				complete := func(x []string) bool {
+					return len(x) == 0 || fmt.Sprint(x) == fmt.Sprint(bi) || fmt.Sprint(x) == fmt.Sprint(bt)
+				}
+				who := "unassigned"
+				if isAssigned[id] {
+					who = "assigned"
+				}
+				cause := "fault-free"
+				if len(failIdx)+len(failTrash) > 0 {
+					cause = "after-rename-failure"
+				}
+				if ai := simple(after1.index, id); !complete(ai) {
+					vfOracleFail("partial-shard-set:live-in-index:"+who+":"+cause,
+						fmt.Sprintf("repository %d: after cleanup the index holds shards %v — a strict subset of its shard set (indexed before: %v, trashed before: %v)", id, ai, bi, bt), replay)
+				}
+				if at := simple(after1.trash, id); !complete(at) {
+					vfOracleFail("partial-shard-set:in-trash:"+who+":"+cause,
+						fmt.Sprintf("repository %d: after cleanup the trash holds shards %v — a strict subset of its shard set (indexed before: %v, trashed before: %v)", id, at, bi, bt), replay)
+				}
 			}
 		}
 		for id := range aliveA {
